@@ -200,14 +200,35 @@ func runStream(t *testing.T, tape *Tape, w *World, variant string, steps int, ou
 			r.ev("%s ended: %v", cl.id, cl.err)
 		})
 	}
+	externalOnly := tape.Bool(30)
+	// storage-fault runs: right after one external Acknowledge has committed, the next few
+	// statements fail (that is when the stream re-reads which of its outstanding deliveries
+	// are still pending). Whatever is hit fails cleanly: an RPC returns an error and changes
+	// nothing, the stream ends with the error (a client reconnects) - what may not happen is
+	// a stream that stays open and stalled with capacity and deliverable messages.
+	// nackMostly: the client keeps nacking single deliveries on the stream (each is due again at
+	// once and comes back while the stream is still busy with the nack)
+	nackMostly := !externalOnly && tape.Bool(25)
+	faultRun := externalOnly && len(clients) == 1 && tape.Bool(45)
+	faultArmed := false
+	injected := func(err error) bool {
+		return faultRun && faultArmed && err != nil && strings.Contains(err.Error(), errInjected.Error())
+	}
 	// ---- publishers
 	np := tape.Intn(4)
+	if nackMostly {
+		np += 2 // keep the backlog above what the flow control admits
+	}
 	for i := 0; i < np; i++ {
 		id := fmt.Sprintf("pub%d", i)
 		n := 1 + tape.Intn(3)
 		c.spawn(id, func(ctx context.Context) {
 			for k := 0; k < n; k++ {
 				ap, err := pubOne(ctx, id)
+				if injected(err) {
+					r.ev("%s: publish failed under the injected storage fault: %v", id, err)
+					continue
+				}
 				if err != nil {
 					fail(viol("C12", "status", "%s: %v", id, err))
 					return
@@ -219,7 +240,6 @@ func runStream(t *testing.T, tape *Tape, w *World, variant string, steps int, ou
 	}
 	// ---- client actors: acks / nacks on the stream, external acks
 	na := 1 + tape.Intn(3)
-	externalOnly := tape.Bool(30)
 	for i := 0; i < na; i++ {
 		id := fmt.Sprintf("actor%d", i)
 		rounds := 2 + tape.Intn(8)
@@ -244,13 +264,21 @@ func runStream(t *testing.T, tape *Tape, w *World, variant string, steps int, ou
 					continue
 				}
 				kind := tape.Intn(4)
+				if nackMostly && tape.Bool(80) {
+					kind = 2
+					if len(ids) > 1 && tape.Bool(60) {
+						ids = ids[:1]
+					}
+				}
 				if externalOnly {
 					kind = 3
 					if len(ids) > 1 && tape.Bool(70) {
 						ids = ids[:1] // many small separate ack transactions
 					}
 				}
+				sizeOf := map[string]int{}
 				for _, a := range ids {
+					sizeOf[a] = cl.outstanding[a]
 					delete(cl.outstanding, a)
 				}
 				cl.freed = true
@@ -271,11 +299,25 @@ func runStream(t *testing.T, tape *Tape, w *World, variant string, steps int, ou
 					_, err := w.Call(ctx, "Acknowledge", &pubsubpb.AcknowledgeRequest{Subscription: sub.Name, AckIds: ids})
 					t1 := time.Now()
 					r.ev("%s: external Acknowledge %s -> %v", id, r.descIDs(ids), code(err))
+					if injected(err) {
+						// failed cleanly: nothing acknowledged, the client still holds them
+						for _, a := range ids {
+							cl.outstanding[a] = sizeOf[a]
+						}
+						continue
+					}
 					if err != nil {
 						fail(viol("C03", "status", "Acknowledge: %v", err))
 						return
 					}
 					pending = append(pending, seqOp{S.TaskCommit(id), func() *Violation { r.M.Ack(nil, ids, t0, t1); return nil }})
+					if faultRun && !faultArmed && tape.Bool(50) {
+						faultArmed = true
+						k := 1 + tape.Intn(3)
+						S.Arm(FaultStmtErr, k, nil)
+						r.Stats["armed_"+FaultStmtErr.String()]++
+						r.ev("%s: storage fault armed at driver event %d after this acknowledgement", id, k)
+					}
 				}
 			}
 		})
@@ -327,6 +369,12 @@ func runStream(t *testing.T, tape *Tape, w *World, variant string, steps int, ou
 	if !ok {
 		r.Stats["truncated"]++
 	}
+	faultFired := false
+	if faultArmed {
+		if _, faultFired = S.Disarm(); faultFired {
+			r.Stats["fired_"+FaultStmtErr.String()]++
+		}
+	}
 	if v == nil && ok {
 		// quiescent. allow one second (all retry timers of this scenario are >= 30 s)
 		time.Sleep(time.Second)
@@ -342,6 +390,10 @@ func runStream(t *testing.T, tape *Tape, w *World, variant string, steps int, ou
 			now := time.Now()
 			for _, cl := range clients {
 				if cl.ended {
+					if faultFired && cl.err != nil && strings.Contains(cl.err.Error(), errInjected.Error()) {
+						r.Stats["stream_ended_by_storage_fault"]++
+						continue
+					}
 					if code(cl.err) != codes.OK {
 						v = viol("C11", "stream_died", "%s ended unexpectedly: %v", cl.id, cl.err)
 					}
